@@ -1,15 +1,16 @@
 #!/bin/bash
 # Development tool (not registered): the detection self-test. Applies every kept seeded defect (seeded/*/)
-# to the isolated copy of the repository and runs the quick check of the property it breaks; every line must say
+# to the isolated copy of the repository and runs the check that owns its symptom (meta.json: run_check, default the quick check of the property it was written for); every line must say
 # exit=1. usage: run_all_seeds.sh [name-prefix]
 cd /verif
 for d in seeded/${1:-}*/; do
   n=$(basename "$d")
-  prop=$(python3 -c "import json;print(json.load(open('$d/meta.json'))['property'])")
+  prop=$(python3 -c "import json;m=json.load(open('$d/meta.json'));print(m.get('run_check',m['property']).split(':')[0])")
+  tier=$(python3 -c "import json;m=json.load(open('$d/meta.json'));r=m.get('run_check','');print(r.split(':')[1] if ':' in r else 'quick')")
   p="$d/patch.diff"
   if ! git -C /repo apply --check "$PWD/$p" 2>/dev/null; then
     if [ -f "$d/patch.rebased-on-final-tree.diff" ]; then p="$d/patch.rebased-on-final-tree.diff"; else echo "$n: patch does not apply on the final tree"; continue; fi
   fi
   echo -n "$n: "
-  tools/try_seed_iso.sh "$PWD/$p" "$prop" 2>&1 | grep -v ^WARN | grep "exit=" | cut -c1-160
+  TIER=$tier ZKV_PLAN=$([ "$tier" = thorough ] && echo depth16 || echo "") tools/try_seed_iso.sh "$PWD/$p" "$prop" 2>&1 | grep -v ^WARN | grep "exit=" | cut -c1-160
 done
